@@ -41,6 +41,10 @@ func (c06) Classes() []sim.Class {
 		)
 	}
 	for _, e := range []string{"interpreter", "compiler"} {
+		// code of an instance that has exited reaches a WASI function
+		cs = append(cs, sim.Class{Name: "exit-then-wasi", Engine: e, Quick: 30, Thorough: 600, DeathIsViolation: true, RunTimeoutSec: 60})
+	}
+	for _, e := range []string{"interpreter", "compiler"} {
 		cs = append(cs, sim.Class{Name: "reentrant-unbounded", Engine: e, Quick: 1, Thorough: 3, ExpectDeath: true,
 			DeathPattern: "stack overflow|goroutine stack exceeds", KnownSig: "unbounded-host-reentrancy-fatal-stack-overflow", RunTimeoutSec: 120, Batch: 1})
 	}
@@ -73,6 +77,7 @@ func (c06) Describe() sim.Description {
 		Rule: "tape-generated plans (3-8 guest functions of atoms: stores, global updates, direct/indirect/imported calls, host calls, traps of 7 kinds, memory.grow, table.set, proc_exit, bulk-memory segment ops) instantiated three times " +
 			"(named instance, second instance of the same compiled module, a second plan importing the first one's functions); histories of 5-30 top-level Call/CallWithStack; host-call atoms misbehave per tape at any nesting depth " +
 			"(panic(error), panic(string), Go runtime error, close own module, close another instance, re-enter any instance and swallow or propagate the inner error). The plan model predicts error kind, results, and all instances' cells/globals/memory size/closed state after every call. " +
+			"Class exit-then-wasi: an instance that has exited (proc_exit; a host function closing it; a nested exit swallowed by the host function) runs on or is called again and reaches a WASI function: the caller must get the exit error with the code (recorded known finding: a recovered nil dereference). Class overflow: unbounded recursion, half of the time calling a host function at every level. " +
 			"Non-trivial: at least one failure fired at guest depth >= 1 or inside a re-entrant call, followed by at least one more call; distinct = distinct sequences of call outcomes",
 		RealCode: []string{"both engines' call/recover/unwind paths", "internal/wasmdebug", "imports/wasi_snapshot_preview1 proc_exit", "module close", "experimental listeners (C20)"},
 		Stubs:    []string{"the host function env.h is the simulator's (scripted from the tape)"},
@@ -110,6 +115,9 @@ func run(t *tape.Tape, cfg sim.Config, listen bool) (res sim.Result) {
 	r := &runner{t: t, res: &res, engine: cfg.Engine, listen: listen}
 	if cfg.Class == "reentrant-unbounded" {
 		return runUnbounded(r)
+	}
+	if cfg.Class == "exit-then-wasi" {
+		return runExitThenWASI(t, cfg)
 	}
 	if cfg.Class == "deep" {
 		return runDeep(r, &res)
